@@ -24,10 +24,10 @@ def main():
         shutil.copytree(os.path.join(d, "a"), os.path.join(d, "b"))
         open(os.path.join(d, "b", rel), "w", encoding="utf-8").write(src.replace(old, new))
         p = subprocess.run(["diff", "-u", os.path.join("a", rel), os.path.join("b", rel)], cwd=d, stdout=subprocess.PIPE, text=True)
-        env = dict(os.environ, CARGO_NET_OFFLINE="true", CARGO_TARGET_DIR="/tmp/p2mk-target")
+        env = dict(os.environ, CARGO_NET_OFFLINE="true", CARGO_TARGET_DIR=os.environ.get("MK_TARGET", "/tmp/p2mk-target"))
         t = subprocess.run(["timeout", "-k", "5", "240", "cargo", "test", "--offline"], cwd=os.path.join(d, "b"), env=env, stdout=subprocess.PIPE, stderr=subprocess.STDOUT, text=True)
         out_txt = t.stdout
-        subprocess.run("for p in $(pgrep -f p2mk-target/debug/deps/p2sh-); do kill -9 $p; done", shell=True)
+        subprocess.run("for p in $(pgrep -f %s/debug/deps/p2sh-); do kill -9 $p; done" % os.environ.get("MK_TARGET", "/tmp/p2mk-target"), shell=True)
         builds = "error: could not compile" not in out_txt
         passed = "test result: ok" in out_txt and "FAILED" not in out_txt and t.returncode == 0
         out = os.path.join("/verif/mutants", name)
